@@ -228,4 +228,41 @@ theorem frameSizeSelect_arg (f fs r : Int) (h : frameSizeSelect f FRAMESIZE_ARG 
     · omega
     · split at h <;> omega
 
+/-- Numerator of the nine Opus frame durations in units of 2.5 ms, by OPUS_FRAMESIZE_* argument. -/
+def durNum (vd : Int) : Int := [1, 2, 4, 8, 16, 24, 32, 40, 48].getD (vd - 5001).toNat 0
+
+def fixedSize (vd fs : Int) : Int :=
+  if vd ≤ 5005 then (fs / 400) * 2 ^ (vd - 5001).toNat else (vd - 5001 - 2) * fs / 50
+
+def fixedTable : Bool :=
+  rates.all fun fs => [5001, 5002, 5003, 5004, 5005, 5006, 5007, 5008, 5009].all fun vd =>
+    400 * fixedSize vd fs == fs * durNum vd
+
+theorem fixedTable_true : fixedTable = true := by decide +kernel
+
+theorem frameSizeSelect_fixed (f vd fs r : Int) (hfs : fs ∈ rates) (hvd : 5001 ≤ vd ∧ vd ≤ 5009)
+    (h : frameSizeSelect f vd fs = r) (hr : r ≠ -1) : 400 * r = fs * durNum vd ∧ r ≤ f := by
+  have ht := fixedTable_true
+  simp only [fixedTable, List.all_eq_true, beq_iff_eq] at ht
+  have hmem : vd ∈ ([5001, 5002, 5003, 5004, 5005, 5006, 5007, 5008, 5009] : List Int) := by
+    simp only [List.mem_cons, List.mem_nil_iff, or_false]; omega
+  have ht := ht fs hfs vd hmem
+  have key : r = fixedSize vd fs ∧ r ≤ f := by
+    unfold frameSizeSelect at h
+    consts
+    have e1 : ¬ (vd = 5000) := by omega
+    split at h
+    · omega
+    · have e3 : (if vd ≤ 5005 then some (fs / 400 * 2 ^ (vd - 5001).toNat) else some ((vd - 5001 - 2) * fs / 50))
+          = some (fixedSize vd fs) := by
+        unfold fixedSize; split <;> rfl
+      rw [e3] at h
+      simp only at h
+      split at h
+      · omega
+      · split at h
+        · omega
+        · exact ⟨h.symm, by omega⟩
+  rw [key.1]; exact ⟨ht, by rw [← key.1]; exact key.2⟩
+
 end Opus.EncDecide
